@@ -364,6 +364,20 @@ package cache
 
 // ---------------------------------------------------------------- constructors and the closures they install
 
+// A new file cache starts from a cleared directory with an empty record and a zero
+// counter: the representation invariant holds before the first request.
+//@ props C12 C16
+//@ func NewFileCache
+//@   requires cfg != nil && aset(cfg.Cache.MaxCacheSize.value) && aset(cfg.Cache.CleanupInterval.value) && shardCount >= 1 && shardCount < 4294967296 && cleanupInterval > 0
+//@   requires specEventInv(cfg.Cache.MaxCacheSize.onChange) && cfg.Cache.MaxCacheSize.onChange.nextID < 18446744073709551615 && specEventInv(cfg.Cache.CleanupInterval.onChange) && cfg.Cache.CleanupInterval.onChange.nextID < 18446744073709551615
+//@   ensures [C12] result != nil && specFileInv(result) && result.byteSize.val.v == 0 && result.janitor != nil && result.maxCacheSize.val != nil
+
+//@ props C12 C16
+//@ func NewMemoryCache
+//@   requires cfg != nil && aset(cfg.Cache.MaxCacheSize.value) && aset(cfg.Cache.CleanupInterval.value) && aset(cfg.Cache.Memory.MemoryBudgetPercent.value) && shardCount >= 1 && shardCount < 4294967296 && cleanupInterval > 0
+//@   requires specEventInv(cfg.Cache.MaxCacheSize.onChange) && cfg.Cache.MaxCacheSize.onChange.nextID < 18446744073709551615 && specEventInv(cfg.Cache.CleanupInterval.onChange) && cfg.Cache.CleanupInterval.onChange.nextID < 18446744073709551615 && specEventInv(cfg.Cache.Memory.MemoryBudgetPercent.onChange) && cfg.Cache.Memory.MemoryBudgetPercent.onChange.nextID < 18446744073709551615
+//@   ensures [C12] result != nil && specMemInv(result) && result.byteSize.val.v == 0 && result.janitor != nil && result.maxCacheSize.val != nil
+
 // The closures a backend hands to its janitor implement the callback contracts
 // and keep the backend's invariant (premise of the callback rule).
 //@ props C12 C13 C14 C15 C16
